@@ -297,7 +297,7 @@ CLAIMED["C12"] = dict(
     note=COMMON_NOTE + "Rows enter the model as the tool's parser yields them (C10). calc_post_err_prob_cutoff is a recorded oracle keyed by "
          "the exact PEP list (its contract: C17). Intensities on a grid where float addition is exact; iBAQ floats compared through "
          "correct rounding of the exact quotient. TMT reporter cells are modelled (tmt_intensities; evidence with 1-2 TMT channels); "
-         "sequence-coverage columns and the experimental-design override are not modelled "
+         "the experimental-design override is modelled (quantify_design); sequence-coverage columns are not modelled "
          "(header/cell counts: C13). LFQ: C11. Axioms: none.",
     technique="Coq proofs over a functional model of the quantification step + differential correspondence on generated evidence files",
     design="5/C12")
